@@ -1391,9 +1391,9 @@ Proof.
     match goal with |- context [run ?t ?s] =>
       assert (Hc : capped s) by (apply capped_set_count; [apply C1|exact C1]);
       pose proof (Hrun t s Hc) as Hr; destruct (run t s) end; simpl in *; try exact I.
-    + destruct Hr as [Hr1 Hr2]. unfold grows in *. rewrite set_count_length in Hr2. split; [exact Hr2|].
+    + destruct Hr as [Hr1 Hr2]. unfold cap_res, grows in *. rewrite set_count_length in Hr2. split; [exact Hr2|].
       exists None. split; [exact H|]. eapply ksem_none; eauto.
-    + destruct Hr as [Hr1 Hr2]. unfold grows in *. rewrite set_count_length in Hr2. split; assumption.
+    + destruct Hr as [Hr1 Hr2]. unfold cap_res, grows in *. rewrite set_count_length in Hr2. split; assumption.
   - (* ARunSub *)
     destruct H as (Hk & HQ).
     unfold after_run.
@@ -1413,10 +1413,10 @@ Proof.
     pose proof (Hrun (List.length (st_tapes st)) st2 Hc) as Hr.
     change (List.length (st_tapes (with_defs st (st_defs st ++ [nth_defs st (to_defs (cur fr st))]))))
       with (List.length (st_tapes st)).
-    destruct (run (List.length (st_tapes st)) st2); simpl in *; try exact I.
-    + destruct Hr as [Hr1 Hr2]. unfold grows in *. split; [lia|].
+    destruct (run (List.length (st_tapes st)) st2); simpl in Hr |- *; try exact I.
+    + destruct Hr as [Hr1 Hr2]. unfold cap_res, grows in *. split; [lia|].
       exists None. split; [exact HQ|]. eapply ksem_none; eauto. lia.
-    + destruct Hr as [Hr1 Hr2]. unfold grows in *. split; [assumption|lia].
+    + destruct Hr as [Hr1 Hr2]. unfold cap_res, grows in *. split; [assumption|lia].
   - (* ATrySub *)
     match goal with |- context [run ?t ?s] => set (st2 := s) end.
     assert (E2 : st_tapes st2 = st_tapes st ++
@@ -1429,10 +1429,10 @@ Proof.
     pose proof (Hrun (List.length (st_tapes st)) st2 Hc) as Hr.
     change (List.length (st_tapes (with_defs st (st_defs st ++ [nth_defs st (to_defs (cur fr st))]))))
       with (List.length (st_tapes st)).
-    destruct (run (List.length (st_tapes st)) st2); simpl in *; try exact I.
-    + destruct Hr as [Hr1 Hr2]. unfold grows in *. split; [lia|].
+    destruct (run (List.length (st_tapes st)) st2); simpl in Hr |- *; try exact I.
+    + destruct Hr as [Hr1 Hr2]. unfold cap_res, grows in *. split; [lia|].
       exists None. split; [apply H|]. eapply ksem_none; eauto. lia.
-    + destruct Hr as [Hr1 Hr2]. unfold grows in *. split; [lia|].
+    + destruct Hr as [Hr1 Hr2]. unfold cap_res, grows in *. split; [lia|].
       exists None. split; [apply H|]. eapply ksem_none; eauto. lia.
   - (* ALoopNew *)
     split; [unfold grows; simpl; rewrite app_length; simpl; lia|]. exists k. split; [apply H|].
@@ -1459,7 +1459,6 @@ Proof.
   - apply cap_res_refl; apply Hs.
   - exact I.
   - pose proof (cap_step_sound X a k _ fr st Hd Hs) as Hstep.
-    pose proof (step_ptr orc cfg run) as Hp.
     destruct (step orc cfg run a fr st) as [x fr' st'|e fr' st'| |w] eqn:Es; simpl in Hstep;
       try exact I; [|exact Hstep].
     destruct Hstep as (Hlen & k' & Hd' & Hs').
@@ -1476,8 +1475,8 @@ Proof.
                end;
         try (injection Es as <- <- <-; reflexivity); try (injection Es as <- <-; reflexivity). }
     destruct (interp orc cfg run (g x) fr' st') as [a' fr'' st''|e fr'' st''| |w]; try exact I.
-    + destruct IH as ((I1 & I2) & I3). unfold grows in *. split; [split; [exact I1|lia]|congruence].
-    + destruct IH as (I1 & I2). unfold grows in *. split; [exact I1|lia].
+    + destruct IH as ((I1 & I2) & I3). unfold cap_res, grows in *. split; [split; [exact I1|lia]|congruence].
+    + destruct IH as (I1 & I2). unfold cap_res, grows in *. split; [exact I1|lia].
 Qed.
 
 End Step.
@@ -1502,7 +1501,7 @@ Proof.
   destruct Hi as ((H1 & H2) & _).
   pose proof (IH tid (fr_ptr fr') st' H1) as H3.
   destruct (run_tape orc cfg f tid (fr_ptr fr') st') as [u' fr'' st''|e fr'' st''| |w]; simpl in *;
-    try exact I; (destruct H3 as [H3 H4]; unfold grows in *; split; [exact H3|lia]).
+    try exact I; (destruct H3 as [H3 H4]; unfold cap_res, grows in *; split; [exact H3|lia]).
 Qed.
 
 Lemma init_capped script vals : capped (init_state cfg script vals).
@@ -1530,12 +1529,10 @@ Lemma auth_rest_capped fuel : forall scripts prev st,
   end.
 Proof.
   intros scripts. induction scripts as [|s rest IH]; intros prev st H.
-  - simpl. destruct (st_stack st) as [|item [|x y]]; simpl; try exact H.
-    eapply capped_tapes_eq; [|exact H]. reflexivity.
+  - simpl. destruct (st_stack st) as [|item [|x y]]; simpl; exact H.
   - rewrite auth_rest_cons.
     assert (Hc : capped (next_script_state st prev s)).
-    { unfold next_script_state. eapply capped_tapes_eq; [simpl; reflexivity|].
-      eapply capped_app; [simpl; reflexivity| |exact H]. simpl. apply H. }
+    { eapply (capped_app st); [unfold next_script_state; simpl; reflexivity| |exact H]. simpl. apply H. }
     pose proof (run_tape_capped fuel (List.length (st_tapes st)) 0 _ Hc) as Hr.
     destruct (run_tape orc cfg fuel _ 0 _) as [u fr' st'|e fr' st'| |w]; simpl in Hr; try exact I.
     + apply IH. apply Hr.
